@@ -36,6 +36,8 @@ def cases(tier, seed):
         yield dict(spec=spec)
     for spec in families.inc2(tier):     # one node in two incompatibility constraints, derived partners
         yield dict(spec=spec)
+    for spec in families.inc3(tier):     # per-option removal influences on a shared derived node
+        yield dict(spec=spec)
     for spec in families.diamond(tier):  # reconverging derivation branches below an option
         yield dict(spec=spec)
     # build history: one derivation edge is added IN PLACE to the initialised graph object, which is initialised again
